@@ -24,6 +24,8 @@ from .pyaes import aes, blockfeeder
 @register_AES128
 class AES128Proxy(AES128Base):
     def encrypt(self, data: bytes) -> bytes:
+        if len(data) == 0:
+            return bytes()
         mode = aes.AESModeOfOperationCBC(self._key, self._iv)
         encryptor = blockfeeder.Encrypter(mode, padding="none")
         pad_length = -len(data) % AES128Base.BLOCK_SIZE
@@ -35,6 +37,8 @@ class AES128Proxy(AES128Base):
     def decrypt(self, data: bytes) -> bytes:
         if len(data) % AES128Base.BLOCK_SIZE != 0:
             raise ValueError("Encrypted data is not a multiple of the AES block size")
+        if len(data) == 0:
+            return bytes()
         mode = aes.AESModeOfOperationCBC(self._key, self._iv)
         decryptor = blockfeeder.Decrypter(mode, padding="none")
         plaintext_padded = decryptor.feed(data)
